@@ -136,6 +136,7 @@ type Config struct {
 	AllSeeds   bool // every certificate seed (else: the quick seed list)
 	Bytes      int  // byte-level menu for: BytesSmall = quick-list seeds <= QuickBytesLimit, BytesQuickList = all quick-list seeds, BytesAll = every selected seed
 	Pairs      bool // TLVPairs menu for seeds <= PairLimit
+	Bundles    int  // concatenations of this many certificates of the bundle alphabet (0 = none, 2 = ordered pairs, 3 = ordered triples)
 }
 
 // Values of Config.Bytes.
@@ -148,9 +149,9 @@ const (
 // DefaultConfig is the stream of a tier as C02 uses it.
 func DefaultConfig(quick bool) Config {
 	if quick {
-		return Config{ModelDepth: 2, Shards: 96}
+		return Config{ModelDepth: 2, Shards: 96, Bundles: 2}
 	}
-	return Config{ModelDepth: 3, Shards: 96, AllSeeds: true, Bytes: BytesAll, Pairs: true}
+	return Config{ModelDepth: 3, Shards: 96, AllSeeds: true, Bytes: BytesAll, Pairs: true, Bundles: 3}
 }
 
 // level3 enumerates the assignments with exactly three non-default fields whose
@@ -230,8 +231,17 @@ func inQuickList(name string) bool {
 //	              (Light unless the seed is on the quick list), pair menu (Light) when <= PairLimit bytes.
 //	C06 (cheap oracle) takes every seed with both menus already in its quick tier.
 func Units(cfg Config, all []xgen.Seed) []Unit {
+	return UnitsWith(cfg, all, nil)
+}
+
+// UnitsWith is Units with check-specific extra elements in the bundle alphabet.
+func UnitsWith(cfg Config, all []xgen.Seed, extraBundle []BundleElem) []Unit {
 	var units []Unit
 	def := xgen.Encode(xgen.Default())
+	units = append(units, Unit{Name: "model/name-ties", Kind: "ties", Base: def, Gen: nameTies()})
+	if cfg.Bundles >= 2 {
+		units = append(units, BundleUnits(BundleAlphabet(all, extraBundle...), cfg.Bundles)...)
+	}
 	for k := 0; k < cfg.Shards; k++ {
 		units = append(units, Unit{Name: fmt.Sprintf("model/d<=2/shard%04d", k), Kind: "model", Base: def, Gen: modelShard(2, k, cfg.Shards)})
 	}
@@ -289,7 +299,7 @@ func Describe(cfg Config, units []Unit) string {
 	n := map[string]int{}
 	seen := map[string]bool{}
 	for _, u := range units {
-		if u.Kind == "model" || u.Kind == "model3" {
+		if u.Kind == "model" || u.Kind == "model3" || u.Kind == "bundle" {
 			n[u.Kind]++
 		} else if !seen[u.Kind+"|"+u.Seed] {
 			seen[u.Kind+"|"+u.Seed] = true
@@ -317,5 +327,27 @@ func Describe(cfg Config, units []Unit) string {
 	if n["seed-pairs"] > 0 {
 		s += fmt.Sprintf("; (d) every pair of core-menu mutations on siblings / parent+child (TLVPairs) for the %d seeds <= %d bytes", n["seed-pairs"], PairLimit)
 	}
+	s += fmt.Sprintf("; (t) handed out first, the %d model certificates {default, cn-dns-*} x {san *-ties}: common names and subjectAltName entries that tie under ASCII case folding, trailing dots, "+
+		"surrounding white space, wildcard/redaction prefixes, punycode vs. Unicode spelling, identical duplicates, and one host as dNSName / URI / 4- and 16-byte iPAddress (also part of (a))", countEnum(nameTies()))
+	if n["bundle"] > 0 {
+		s += fmt.Sprintf("; (u) BUNDLES: every ordered %d-tuple (repetitions included) over an alphabet of %d certificates, concatenated = %d bundles in %d units; the alphabet = %d model certificates chosen to differ in every "+
+			"OPTIONAL element of Certificate/TBSCertificate (signature and key AlgorithmIdentifier parameters absent / NULL / OID / SEQUENCE: Ed25519, RSA, RSA-PSS, ECDSA, DSA; inner vs outer algorithm; version absent / explicit default / v2 / v3; "+
+			"issuerUniqueID / subjectUniqueID absent, one, both; extensions absent / empty / present; CT poison / SCT list present or absent on the same base; issuer = / != subject) + the harness-minted CA/leaf certificates + the fixtures of the quick seed list + check-specific elements",
+			cfg.Bundles, n["bundle"], pow(n["bundle"], cfg.Bundles), n["bundle"], len(bundleModel))
+	}
 	return s + ". Only the elements that x509.ParseCertificate accepts are subjects of the property; the rest is counted per reject class"
+}
+
+func pow(b, e int) int {
+	r := 1
+	for ; e > 0; e-- {
+		r *= b
+	}
+	return r
+}
+
+func countEnum(e xgen.Enum) int {
+	n := 0
+	e(func(string, []byte) bool { n++; return true })
+	return n
 }
